@@ -886,6 +886,91 @@ def run_capture_case(site, content, muts, early_build):
 
 
 # ----------------------------------------------------------- tie H (3): heap model vs real sites
+class _Atoms:
+    """Immutable items (words, ints, float32 bits, strings, Var names) -> small naturals."""
+
+    def __init__(self):
+        self.tab = {}
+
+    def __call__(self, x):
+        key = tuple(x) if isinstance(x, list) else x
+        return self.tab.setdefault((type(key).__name__, key), len(self.tab))
+
+
+def _items(obs):
+    """Items of an observed tensor: signed values for the signed integer types (so that a Python list of ints
+    and the int64/int32 tensor made from it speak the same vocabulary), bit patterns / byte strings otherwise."""
+    d = obs["dtype"]
+    if d in ("int8", "int16", "int32", "int64"):
+        b = W.BITS[d]
+        return [w - (1 << b) if w >> (b - 1) else w for w in obs["data"]]
+    return obs["data"]
+
+
+def _abs_flat(site, obj, atoms):
+    """The caller's flat container as the list of its items, in the vocabulary of the site's observation."""
+    import numpy as np
+
+    if isinstance(obj, np.ndarray):
+        return [atoms(x) for x in _items(_obs_array(obj))]
+    k = site.kind
+    if k == "scalars:floats":
+        return [atoms(f32_bits_of_double(float(x))) for x in obj]
+    if k == "vars":
+        pool_names = {id(v): f"a{i}" for i, v in enumerate(site.var_make([0, 1, 2, 3]))}
+        return [atoms(pool_names[id(v)]) for v in obj]
+    return [atoms(x) for x in obj]
+
+
+def _abs_value(site, value, atoms):
+    """The observed stored value -> list of item lists."""
+    if isinstance(value, dict) and "data" in value:
+        return [[atoms(x) for x in _items(value)]]
+    if isinstance(value, list) and value and isinstance(value[0], dict):
+        return [[atoms(x) for x in _items(v)] for v in value]
+    return [[atoms(x) for x in value]]
+
+
+def capture_corr_case(site, content, muts, mode):
+    """Run a history on the real constructor and abstract it for the heap model.
+    -> (request for the driver, observed stored value at the end as item lists)"""
+    atoms = _Atoms()
+    obj = make_caller_object(site, content)
+    nest = site.kind in ("nestlist", "nestarr")
+    locs = {}
+
+    def loc(inner):
+        return locs.setdefault(id(inner), len(locs))
+
+    keep = []  # keep inner objects alive so ids stay unique
+
+    def snapshot():
+        if not nest:
+            return {"flat": {0: _abs_flat(site, obj, atoms)}, "nest": {}}
+        fl = {}
+        order = []
+        for inner in obj:
+            keep.append(inner)
+            fl[loc(inner)] = _abs_flat(site, inner, atoms)
+            order.append(loc(inner))
+        return {"flat": fl, "nest": {0: order}}
+
+    s0 = snapshot()
+    nflat = max(s0["flat"]) + 1
+    req = {"op": "capture", "mode": mode, "kind": "nest" if nest else "flat",
+           "flat": [s0["flat"].get(i, []) for i in range(nflat)], "nest": [s0["nest"].get(0, [])], "arg": 0, "muts": []}
+    handle = site.call(obj)
+    for m in muts:
+        apply_mut(site, obj, m, site.kind)
+        sn = snapshot()
+        for k, v in sn["flat"].items():
+            req["muts"].append({"flat": k, "v": v})
+        if nest:
+            req["muts"].append({"nest": 0, "v": sn["nest"][0]})
+    value = site.read(handle)["value"]
+    return req, _abs_value(site, value, atoms)
+
+
 def run_capture_correspondence(ck, info):
     table = {r["site"]: r for r in info["capture"]}
     rng = ck.rng
@@ -895,33 +980,28 @@ def run_capture_correspondence(ck, info):
         if row is None:
             ck.broken("correspondence", "C10 capture table", f"no row for {site.table_site}")
             continue
-        for _ in range(ck.pick(6, 40)):
+        for _ in range(ck.pick(8, 80)):
             content = gen_content(rng, site.kind)
             muts = gen_muts(rng, site.kind, content)
             try:
-                problems, _, _ = run_capture_case(site, content, muts, early_build=False)
-            except Exception as e:  # noqa: BLE001
+                req, seen = capture_corr_case(site, content, muts, row["observed"])
+            except Exception as e:  # noqa: BLE001  (a mutant may make the build itself fail: the oracle reports that)
                 ck.notes.append(f"capture correspondence: {site.name} raised {type(e).__name__}: {str(e)[:100]}")
                 continue
-            # abstract the history for the model: one flat location whose content is replaced by each mutation
-            kind = "nest" if site.kind in ("nestlist", "nestarr") else "flat"
-            req = {"op": "capture", "mode": row["observed"], "kind": kind, "flat": [[1, 2], [3]], "nest": [[0, 1]],
-                   "arg": 0, "muts": [{"flat": 0, "v": [9, 9, i]} for i, _ in enumerate(muts)]}
             reqs.append(req)
-            meta.append((site, content, muts, bool(problems)))
+            meta.append((site, content, muts, seen))
     outs = ck.driver().ask_many("C10", reqs) if reqs else []
     mism = 0
-    for (site, content, muts, real_changed), m in zip(meta, outs):
-        ck.count(("capture-corr", site.name))
-        model_changed = m.get("after") != m.get("at_call")
-        # the model predicts "changes" for an unsafe mode under *some* mutation; real change implies the
-        # model must not claim safety, and a safe model mode implies no real change
-        if real_changed and not model_changed:
+    flatten = lambda xss: [x for xs in xss for x in xs]  # noqa: E731
+    for (site, content, muts, seen), m in zip(meta, outs):
+        ck.count(("capture-corr", site.name, len(muts)))
+        # a nested list becomes one tensor: compare the concatenation of the rows
+        if "after" not in m or flatten(m["after"]) != flatten(seen):
             mism += 1
             if mism <= 3:
                 ck.broken("correspondence", "C10 heap model vs real constructor",
-                          f"{site.name}: real stored value followed the caller's mutation, table mode "
-                          f"{m} says it cannot")
+                          f"{site.name} content={str(content)[:80]} muts={muts}: model (mode {site.table_site}) predicts "
+                          f"{m.get('after')}, the real stored value reads {seen}")
     ck.cov["capture_correspondence"] = {"cases": len(reqs), "mismatches": mism}
     return mism
 
@@ -1219,7 +1299,8 @@ def wrong_kind_cases():
         ("AttrFloat32s", [5, None, ["a"], [None], [[1.0]], [1.0, "a"]]),
         ("AttrStrings", [5, None, [1], [None], [["a"]], ["a", 1]]),
         ("AttrTensors", [5, None, [1], ["a"], [[1, 2]], [np.array([None], dtype=object)]]),
-        ("AttrDtype", [None, "foo", object, np.dtype("M8[s]"), np.dtype("S3"), np.longdouble, np.dtype("V4")]),
+        ("AttrDtype", [None, "foo", object, np.dtype("M8[s]"), np.dtype("S3"), np.longdouble, np.dtype("V4"),
+                       (None, 0.0), (np.int32, -1), [1, 2], {"a": 1}, 1.5]),
         ("AttrType", [5, None, np.float32, "float32"]),
         ("AttrGraph", [5, None, lambda: 1]),
     ]
@@ -1242,6 +1323,7 @@ def wrong_kind_cases():
         ("cast(x, to=longdouble)", "AttrDtype", "dtype", lambda: op.cast(x, to=np.longdouble)),
         ("cast(x, to=datetime64)", "AttrDtype", "dtype", lambda: op.cast(x, to=np.dtype("M8[s]"))),
         ("cast(x, to='foo')", "AttrDtype", "str", lambda: op.cast(x, to="foo")),
+        ("cast(x, to=(int32, -1))", "AttrDtype", "tuple", lambda: op.cast(x, to=(np.int32, -1))),
         ("concat([x], axis=1.5)", "AttrInt64", "float", lambda: op.concat([x], axis=1.5)),
         ("transpose(x, perm=[0.5, 1])", "AttrInt64s", "list", lambda: op.transpose(x, perm=[0.5, 1])),
         ("transpose(x, perm=1)", "AttrInt64s", "int", lambda: op.transpose(x, perm=1)),
@@ -1355,7 +1437,7 @@ def run(ck: core.Check):
     ck.cov["generated"] = {
         "tensor_enum": {k: v["enum"] for k, v in info["tensor_enum"].items()},
         "attr_kinds": {k: v["kind"] for k, v in info["attr_kinds"]["rows"].items()},
-        "guards": {k: info["attr_kinds"][k] for k in ("tensor_guard", "validate_catch_all", "dtype_catches", "unknown", "missing")},
+        "guards": {k: info["attr_kinds"][k] for k in ("tensor_guard", "validate_catch_all", "dtype_catches", "dtype_spec_catches", "unknown", "missing")},
         "capture": {r["site"]: f"{r['kind']}:{r['ast']}/{r['observed']}" for r in info["capture"]},
     }
     if info["capture_probe_errors"]:
